@@ -11,6 +11,7 @@ import (
 	"go/token"
 	"go/types"
 	"os"
+	"unsafe"
 	"runtime"
 	"slices"
 	"strings"
@@ -240,7 +241,10 @@ func visitInstr(fr *frame, instr ssa.Instruction) continuation {
 			if addr == nil {
 				panic(runtimePanic{"invalid memory address or nil pointer dereference"})
 			}
-			store(mustDeref(instr.Addr.Type()), addr, fr.get(instr.Val))
+			T := mustDeref(instr.Addr.Type())
+			if !i.storeBytes(T, addr, fr.get(instr.Val)) {
+				store(T, addr, fr.get(instr.Val))
+			}
 		default:
 			unsupported("store through %T at %s", addr, i.prog.Fset.Position(instr.Pos()))
 		}
@@ -718,4 +722,66 @@ func trackedPkg(path string) bool {
 		return false
 	}
 	return strings.HasPrefix(path, "github.com/criyle/go-sandbox") || strings.HasPrefix(path, "github.com/elastic/go-seccomp-bpf") || strings.HasPrefix(path, "golang.org/x/net/bpf")
+}
+
+func isByteCell(v value) bool {
+	switch v := v.(type) {
+	case uint8:
+		return true
+	case *SV:
+		return v.t.w == 8
+	}
+	return false
+}
+
+func cellAt(p *value, k int) *value {
+	return (*value)(unsafe.Add(unsafe.Pointer(p), uintptr(k)*unsafe.Sizeof(value(nil))))
+}
+
+// storeBytes handles a store of a wide integer through a pointer that really
+// designates byte cells (reinterpreted via unsafe.Pointer): little-endian split.
+func (i *interpreter) storeBytes(T types.Type, addr *value, v value) bool {
+	k, ok := basicKind(T)
+	if !ok {
+		return false
+	}
+	w, _, isInt := kindInfo(k)
+	if !isInt || w == 8 || !isByteCell(*addr) {
+		return false
+	}
+	t := i.toTerm(v, w)
+	for b := 0; b < w/8; b++ {
+		c := cellAt(addr, b)
+		if !isByteCell(*c) {
+			unsupported("wide store runs past byte cells")
+		}
+		*c = svOrConst(mkExtract(t, b*8+7, b*8), types.Uint8)
+	}
+	return true
+}
+
+// loadBytes is the inverse of storeBytes.
+func (i *interpreter) loadBytes(T types.Type, addr *value) (value, bool) {
+	k, ok := basicKind(T)
+	if !ok {
+		return nil, false
+	}
+	w, _, isInt := kindInfo(k)
+	if !isInt || w == 8 || !isByteCell(*addr) {
+		return nil, false
+	}
+	var t *Term
+	for b := w/8 - 1; b >= 0; b-- {
+		c := cellAt(addr, b)
+		if !isByteCell(*c) {
+			unsupported("wide load runs past byte cells")
+		}
+		bt := byteTerm(*c)
+		if t == nil {
+			t = bt
+		} else {
+			t = mkConcat(t, bt)
+		}
+	}
+	return svOrConst(t, k), true
 }
